@@ -14,30 +14,7 @@ use std::sync::Mutex;
 pub const PROP: &str = "C11";
 pub const KEY_DUP: &str = "collect_item_keys-one-key-two-kinds-last-file-wins";
 
-// ---- shim access ---------------------------------------------------------------------------
-
-extern "C" {
-    fn dlsym(handle: *mut std::ffi::c_void, symbol: *const std::os::raw::c_char) -> *mut std::ffi::c_void;
-}
-
-struct Shim {
-    arm: extern "C" fn(u64),
-    calls: extern "C" fn() -> u64,
-}
-
-fn shim() -> Option<Shim> {
-    unsafe {
-        let a = dlsym(std::ptr::null_mut(), b"verif_shim_arm\0".as_ptr() as *const _);
-        let c = dlsym(std::ptr::null_mut(), b"verif_shim_calls\0".as_ptr() as *const _);
-        if a.is_null() || c.is_null() {
-            return None;
-        }
-        Some(Shim {
-            arm: std::mem::transmute::<*mut std::ffi::c_void, extern "C" fn(u64)>(a),
-            calls: std::mem::transmute::<*mut std::ffi::c_void, extern "C" fn() -> u64>(c),
-        })
-    }
-}
+use crate::engine::shim;
 
 /// Run `f` on a new thread whose hash keys derive from `base` (armed before the thread creates
 /// its first RandomState).
